@@ -40,10 +40,17 @@ FullSeq == SetToSeq(Full)
 Draws(n) == {FullSeq[((((SeedN % 10007) * 7919) + (j * 104729)) % Len(FullSeq)) + 1] : j \in 1..n}
 
 InQuickAllVersions(c) == c.shift \in {0, 3, 8} /\ Diff(c) <= 1
-CaseSet == IF Thorough THEN ThoroughSet \cup {c \in Full : InQuickAllVersions(c)} \cup Draws(100)
+\* "table" cases (both tiers): V3/V4 x table compression x 1..40 small files, so that the lengths of the HET, BET, hash
+\* and block tables (and of their compressed forms) run through every residue mod 4 -- the cipher treats the last
+\* len mod 4 bytes of a table differently from the full words
+TableCases == {[ver |-> v, shift |-> 3, method |-> 2, enc |-> "plain", crc |-> FALSE,
+                attrs |-> IF n % 2 = 0 THEN "none" ELSE "crc32", listfile |-> (n % 3 # 0),
+                tablecomp |-> tc, nfiles |-> n] : v \in {3, 4}, tc \in BOOLEAN, n \in 1..40}
+
+CaseSet0 == IF Thorough THEN ThoroughSet \cup {c \in Full : InQuickAllVersions(c)} \cup Draws(100)
            ELSE {c \in Full : InQuick(c)} \cup Draws(24)
-Cases == SetToSeq(CaseSet)
-ASSUME CaseSet \subseteq Full
+ASSUME CaseSet0 \subseteq Full
+Cases == SetToSeq(CaseSet0) \o SetToSeq(TableCases)
 ASSUME ndJsonSerialize(IOEnv.CASES, Cases)
 ASSUME PrintT(<<"GENERATED", Len(Cases), "of", Cardinality(Full)>>)
 =============================================================================
